@@ -89,6 +89,7 @@ class Opaque:
 
 
 SPEC_UFS = {'Fstate', 'Fnext', 'Fout', 'depth', 'dom', 'cidx', 'kidx', 'pidx', 'nearest', 'wireof'}
+ACCESSORS = {'getSinks': 'sinks', 'getSource': 'source', 'getWidth': 'width'}
 SPEC_PREDS = {'dep', 'propagatable', 'clockable'}
 
 
@@ -331,6 +332,9 @@ class HeapExec(symexec.Executor):
                     return self.apply_contract(self.contracts[key], None, args, st, n)
                 raise Unsupported('call %s.%s' % (base.name, meth))
             if isinstance(base, T):
+                if ('acc:' + meth) in self.contracts and not args:
+                    # a trivial accessor (return self.<attr>): proved separately where it matters; here by name
+                    return self.get_attr(base, ACCESSORS[meth], st, n)
                 key = 'm:' + meth
                 if key in self.contracts:
                     return self.apply_contract(self.contracts[key], base, args, st, n)
